@@ -147,6 +147,22 @@ pub(crate) fn render_vardct<S: Sample>(
     let lf_groups = &mut cache.lf_groups;
     let group_dim = frame_header.group_dim();
 
+    // Fetch the LF frame before entering the pool: waiting for another frame's render inside a pool job can
+    // block the worker that render is suspended on (it steals jobs while it waits for its own tasks).
+    let lf_frame_image = if let Some(x) = lf_frame {
+        Some(
+            tracing::trace_span!("Copy LFQuant").in_scope(|| -> Result<_> {
+                let lf_frame = std::sync::Arc::clone(&x.image).run_with_image()?;
+                let mut lf_frame = lf_frame.blend(None, pool)?.try_clone()?;
+                // A Modular LF frame of an image that is not XYB encoded still holds integer samples.
+                lf_frame.convert_modular_color(image_header.metadata.bit_depth)?;
+                Ok(lf_frame)
+            })?,
+        )
+    } else {
+        None
+    };
+
     let result = std::sync::RwLock::new(Result::Ok(()));
     let (mut fb, lf_xyb) = pool.scope(|scope| -> Result<_> {
         if hf_global.is_none() {
@@ -172,14 +188,8 @@ pub(crate) fn render_vardct<S: Sample>(
             )
         })?;
 
-        let lf_xyb = if let Some(x) = lf_frame {
-            tracing::trace_span!("Copy LFQuant").in_scope(|| -> Result<_> {
-                let lf_frame = std::sync::Arc::clone(&x.image).run_with_image()?;
-                let mut lf_frame = lf_frame.blend(None, pool)?.try_clone()?;
-                // A Modular LF frame of an image that is not XYB encoded still holds integer samples.
-                lf_frame.convert_modular_color(image_header.metadata.bit_depth)?;
-                Ok(lf_frame)
-            })?
+        let lf_xyb = if let Some(lf_frame) = lf_frame_image {
+            lf_frame
         } else {
             let mut lf_xyb = lf_xyb.unwrap();
 
